@@ -31,18 +31,18 @@ RULE = (
     "auto-rechunk, and scans). EVERY task of the graph is (1) cloudpickled before execution, (2) executed twice on "
     "the same inputs with the results compared, (3) its inputs digested before/after, (4) its result cloudpickled "
     "and compared; the run additionally draws worker crashes (recompute from released inputs), read-only input and "
-    "transfer buffers and shared-reference hand-over from the tape, and the final result must equal the sync "
+    "transfer buffers and shared-reference hand-over from the tape; half of the tasks additionally run under sys.settrace with their input digests re-checked at every line executed inside flox (a write that is undone before the task returns is invisible at task boundaries but visible to a concurrent task sharing the input); the final result must equal the sync "
     "baseline bit for bit. Then the crash point is enumerated per graph: one further execution per task with a worker "
     "crash placed right after that task (all tasks in the thorough tier when the graph has <=64 tasks, 3 sampled "
     "ones in the quick tier). Non-trivial iff the graph has >=2 blocks on the reduced axis. distinct_nontrivial = "
     "distinct (kind, func, method, engine, reindex, dtype kind, by kind, #blocks bucket) cells among those."
 )
 ASSUMPTIONS = [
-    "purity is observed at task boundaries: a write that is undone before the task returns is not seen",
-    "interleaving inside a task body is not explored (task-level atomicity); a net mutation is a violation under any interleaving",
+    "purity is observed at task boundaries for every task, and at line granularity inside flox frames for the traced half; writes made inside compiled kernels between two Python lines are seen at the next line",
+    "real concurrent interleaving of two task bodies is not executed; a net or transient modification of a shared input is a violation under any interleaving, which is what is checked",
     "sampled graphs; per graph the crash point enumeration is complete only in the thorough tier for graphs of <=64 tasks",
 ]
-PROBES = ["user_aggregation_reused_between_build_and_run", "crash_recomputed_released_key", "readonly_write_attempt_spurious", "crash_point_enumerated_fully",
+PROBES = ["tasks_line_traced_for_transient_writes", "user_aggregation_reused_between_build_and_run", "crash_recomputed_released_key", "readonly_write_attempt_spurious", "crash_point_enumerated_fully",
           "engine_numbagg", "engine_flox", "blockwise_rechunk", "scan", "by_dask"]
 
 
@@ -125,7 +125,7 @@ def run(case, tape: Tape, ctx):
         try:
             res = assemble(
                 exec_sim(colls, tape, knobs, ctx, info=info, always_dup=full, always_pickle=full,
-                         crash_after=crash_after, max_crashes=3)
+                         crash_after=crash_after, max_crashes=3, trace_p=(0.5 if full else 0.0))
             )
         except TaskError as te:
             cls, msg, det = classify_exception(te)
@@ -138,6 +138,8 @@ def run(case, tape: Tape, ctx):
         return info
 
     info = one()
+    ctx.probe("tasks_line_traced_for_transient_writes", info.stats.get("traced_tasks", 0))
+    ctx.count("traced_lines", info.stats.get("traced_lines", 0))
     names = {k[0] if isinstance(k, tuple) else k for k in info.graph}
     ctx.probe("blockwise_rechunk", any(isinstance(n, str) and n.startswith("rechunk") for n in names))
     # crash-point enumeration
